@@ -15,17 +15,18 @@ CONFIG = {
         "the schema environment is the one the real j5schema reflector derives (ClientProperties, dumped per run); flattening / oneof exposure logic is an input of the model, not part of it",
     ],
     "assumptions": [
-        "model/CodecDec.v + CodecDecScalar.v are the hand-written model of internal/codec/decoder.go and the parts of lib/j5reflect it drives; tied to the code by the regenerated switch tables and by the correspondence stream of this run",
+        "model/CodecDec.v + CodecDecScalar.v + CodecDecQuery.v are the hand-written model of internal/codec/decoder.go, query.go and the parts of lib/j5reflect they drive; tied to the code by the regenerated switch tables and by the correspondence streams of this run",
+        "url.Values is a Go map: the query model takes the (key, values) pairs in visiting order, the theorem holds for every order; the correspondence accepts an observation that the model produces for some order of the keys (exact for single-key queries); strcase.ToLowerCamel and strings.TrimSpace are modelled in lib/Strcase.v",
         "codec options: the default codec (lib/j5codec.NewCodec()); WithProtoToAny (nested decode + proto.Marshal inside decodeAny) is not modelled",
-        "the Go runtime's stack limit is outside the model: the theorem bounds recursion depth by the token count; the harness measures nesting up to 10^4 (quick) / 10^5 (thorough)",
+        "the Go runtime's stack limit is outside the model: the theorem bounds recursion depth by the token count; the decoder's own nesting bound (10000 property values, C06_nesting_bounded) caps the recursion depth; the harness decodes 10^6-deep documents in a crash-isolated child process",
     ],
     "mult_search": 3,
     "refuted": [],
-    "partial": ["C06_json_statement is proved in full (C06_decode_bytes_total); URL-query decoding is not modelled yet: it is exercised by the crash/deadline oracle only"],
+    "partial": [],
 }
 
 MANIFEST = {
-    "text": "Theorems over a Gallina model of the J5 JSON decoder (recursive descent over encoding/json's token stream, every Go panic site reachable from it kept as a Panic outcome): for all byte strings, all schema environments (recursive types included), all root types and whatever strconv.ParseFloat/time.Parse/decimal answer, decoding returns success or an error, never a panic, and never exhausts a fuel of (number of tokens + 1) — the index site of decodeOneofInner and the two protoreflect Append/Set sites are proved unreachable with an invalid value. The model is tied to the code by switch tables re-read from the Go AST on every run and by running model and implementation on the same valid, truncated, null-substituted, mutated, random and deeply nested documents; a crash/deadline oracle runs JSON and URL-query decoding under recover().",
-    "note": "Trusted: Coq kernel; translator; harness; encoding/json tokenizer, strconv integer parsing, base64 and protoreflect presence semantics are modelled, not verified; ParseFloat/time.Parse/decimal are uninterpreted. Query decoding is explored by the oracle, not yet proved. Linear time is not claimed: the error path of deeply nested documents is quadratic in the depth (measured, reported in evidence notes).",
+    "text": "Theorems over a Gallina model of the J5 JSON decoder (recursive descent over encoding/json's token stream, every Go panic site reachable from it kept as a Panic outcome): for all byte strings, all schema environments (recursive types included), all root types and whatever strconv.ParseFloat/time.Parse/decimal answer, decoding returns success or an error, never a panic, and never exhausts a fuel of (number of tokens + 1) — the index site of decodeOneofInner and the two protoreflect Append/Set sites are proved unreachable with an invalid value. The model is tied to the code by switch tables re-read from the Go AST on every run and by running model and implementation on the same valid, truncated, null-substituted, mutated, random and deeply nested documents; URL-query decoding (propertyAtPath, scalar / array / JSON-container arms) is modelled and proved total for every list of key/value pairs in any visiting order; a crash/deadline oracle runs JSON and URL-query decoding under recover(), documents nested 10^6 deep in a child process.",
+    "note": "Trusted: Coq kernel; translator; harness; encoding/json tokenizer, strconv integer parsing, base64 and protoreflect presence semantics are modelled, not verified; ParseFloat/time.Parse/decimal are uninterpreted. Linear time is not claimed: the error path of deeply nested documents is quadratic in the depth (measured, reported in evidence notes).",
     "technique": "Rocq/Coq proof (mutual induction on fuel over the recursive-descent model, case analysis of every panic site) + regenerated switch tables + in-Coq differential correspondence + crash/deadline oracle",
 }
